@@ -807,6 +807,7 @@ func main() {
 	c.Rule += " Interleave part: two claims reconciled by ONE claim reconciler, the first parked before each of its API calls while the second completes (both bound, or the second binding meanwhile); XRs and claims must equal those of the sequential run. O4: a name durably recorded in the stored claim's spec.resourceRef is never replaced by another one. Stale-read variant 3: only the XR cache lags. Static references to an XR bound to another claim are also run with every call index x 6 outcomes on the first (refused) reconcile."
 	c.Rule += " " + "A claim deleted behind the cache is generated and counted (observed only)."
 	c.Rule += " " + "The XRD's referenceable version changes under a bound claim (also with the XR missing while its name is recorded)."
+	c.Rule += " " + "Static references with the claim controller's XR cache behind (client-side syncer judged) and with a Terminating foreign-bound XR."
 	c.Assumptions = []string{"sim implements resourceVersion conflicts and the stale-cache view (DESIGN.md 2.2)", "two reconciles of the same claim never run concurrently (work-queue guarantee)", "random 5-char name suffix collisions are out of scope"}
 	c.Floor = 100
 	for _, ssa := range []bool{false, true} {
